@@ -24,7 +24,7 @@ import (
 	"github.com/tigerwill90/fox"
 )
 
-const rule = "cases = (handler behaviour: every final status 200-599 and 101, implicit 200 through Write, no write at all, informational header only, redirect with and without Location) x " +
+const rule = "cases = (handler behaviour: every final status 200-599 and 101, implicit 200 through Write, no write at all, informational header only, every 3xx code 300-399 with a Location header set directly and, up to 308, through the Redirect helper, 303 without Location) x " +
 	"(resolver configuration: none, succeeding, failing, per-route override succeeding/failing/none) x (handler kind: route, 404, 405, redirect, OPTIONS, route reached through an alias that looks it up, route dispatched by hand after Router.Lookup, escaped path) x remote address notation; " +
 	"x capturing handler enabled from DEBUG/INFO/WARN/ERROR; the product is enumerated; distinct by the tuple; non-trivial always; plus a concurrent phase (4 x GOMAXPROCS goroutines, each request encoding its id in path, status, host, client IP and Location: one consistent record per request)"
 
@@ -144,6 +144,16 @@ func behaviours() []behaviour {
 	for code := 200; code <= 599; code++ {
 		code := code
 		out = append(out, behaviour{fmt.Sprintf("WriteHeader(%d)", code), code, func(c fox.Context) { c.Writer().WriteHeader(code) }, ""})
+	}
+	// every 3xx code with a Location header, set directly or through the Redirect helper: the property speaks of 3xx, not
+	// of the codes the router itself redirects with
+	for code := 300; code <= 399; code++ {
+		code := code
+		loc := fmt.Sprintf("/see/%d?code=%d", code, code)
+		out = append(out, behaviour{fmt.Sprintf("Location header, then WriteHeader(%d)", code), code, func(c fox.Context) { c.SetHeader("Location", loc); c.Writer().WriteHeader(code) }, loc})
+		if code <= 308 {
+			out = append(out, behaviour{fmt.Sprintf("Redirect(%d) helper", code), code, func(c fox.Context) { _ = c.Redirect(code, loc) }, loc})
+		}
 	}
 	out = append(out,
 		behaviour{"implicit 200 via Write", 200, func(c fox.Context) { _, _ = c.Writer().Write([]byte("hi")) }, ""},
@@ -353,7 +363,7 @@ func concurrent(run *kit.Run) {
 		run.Inconclusive("fox.New: %v", err)
 		return
 	}
-	statusOf := func(id int) int { return []int{200, 201, 204, 301, 302, 307, 400, 404, 418, 500, 503}[id%11] }
+	statusOf := func(id int) int { return []int{200, 201, 204, 301, 302, 307, 400, 404, 418, 500, 503, 300, 303, 304, 305, 308, 399}[id%17] }
 	f.MustHandle("GET", "/c/{id}", func(c fox.Context) {
 		id, _ := strconv.Atoi(c.Param("id"))
 		st := statusOf(id)
